@@ -357,6 +357,45 @@ def regressions(ctx):
     finally:
         signal.setitimer(signal.ITIMER_REAL, 0)
         signal.signal(signal.SIGALRM, old)
+    fails += dead_entry_regression(ctx)
+    return fails
+
+
+def dead_entry_regression(ctx):
+    """F19: an authenticated responder answers IKE_AUTH with a CHILD_SA SPI of the wrong size; installing it fails
+    inside xfrm (TypeError).  The initiator used to keep the IKE_SA (DELETED, with the CHILD_SA already tracked) in its
+    table for ever: every later loop iteration failed at that entry, so IKE_SAs behind it got no timers."""
+    from unittest import mock
+    import ikesa
+    import message
+    fails = []
+    with Pair(seed=3) as p:
+        orig = ikesa.IkeSa.generate_response
+
+        def gr(self_, exchange_type, payloads):
+            if int(exchange_type) == 35 and not self_.is_initiator:
+                for pl in payloads:
+                    if isinstance(pl, message.PayloadSA):
+                        pl.proposals[0].spi = bytes(pl.proposals[0].spi) + bytes(4)
+            return orig(self_, exchange_type, payloads)
+        rep = {'regression': 'F19'}
+        try:
+            with mock.patch.object(ikesa.IkeSa, 'generate_response', gr):
+                p.run([list(a) for a in HANDSHAKE])
+            n0 = len(p.sim.log_records)
+            for _ in range(3):
+                p.do(['tick', 1])
+        except LoopEscape as ex:
+            return [Failure('property', 'loop:escaped-exception', f'F19: {ex.exc!r}', rep)]
+        dead = [int(s.state) for s in p.A.controller.ike_sas if int(s.state) == 21]
+        errors = [m for lv, m in p.sim.log_records[n0:] if 'Unexpected error while processing an event' in m]
+        if dead or errors:
+            fails.append(Failure('property', 'loop:dead-ike-sa-in-table',
+                                 f'F19 is back: after a CHILD_SA whose installation failed the initiator keeps {len(dead)} DELETED '
+                                 f'IKE_SA(s) in its table and {len(errors)} of the next 3 loop iterations failed in the timer '
+                                 f'section ({errors[:1]})', rep))
+        if p.A.kernel.sad:
+            fails.append(Failure('property', 'loop:dead-ike-sa-in-table', 'F19: kernel SAs left behind', rep))
     return fails
 
 
